@@ -107,6 +107,12 @@ def gen_value(rng, profile, none_rate=0.06):
     return gen_string(rng, profile)
 
 
+# characters that are their own upper() but not their own lower().upper() / casefold().upper():
+# a loader that normalises keys any other way than str.upper() shows on these
+UPPER_STABLE = ["\u0130", "\u1e9e", "\u212a", "\u212b", "\u2126", "\u01c4", "\u03a3", "\u00c9", "\u0401"]
+UNICODE_SPACE = ["\u3000", "\xa0", "\x0b", "\x0c", "\x1c", "\x1d", "\x85", "\u2028", "\u2029", "\u2003"]
+
+
 def upper_key(s):
     """Make s a legal key of the round-trip domain: equal to its own upper()."""
     u = s.upper()
@@ -122,6 +128,10 @@ def gen_key(rng, fmt, profile, level="simfile"):
         k = rng.choice(MULTI)
     elif r < 0.72:
         k = rng.choice(["VERSION", "BGCHANGES2", "X", "", "NOTES2", "NOTES"])
+    elif r < 0.76 and not profile.startswith("enc:") and profile != "plain":
+        k = "".join(rng.choice(UPPER_STABLE + ["A", "Z", "_"]) for _ in range(rng.randint(1, 4)))
+    elif r < 0.78 and not profile.startswith("enc:"):
+        k = "K" * rng.choice([300, 4090, 4097, 8200])          # long keys
     else:
         k = upper_key(gen_string(rng, profile, 5))
     return k
